@@ -473,6 +473,40 @@ pub fn big_case(r: &mut Rng, n: usize, via_first: bool) -> String {
     format!("KBig [{}]", tabs.join("; "))
 }
 
+/// joins in simultaneous groups: 2..5 nodes start in the same instant (bootstrap lists drawn from the nodes
+/// that existed before the group), then the network runs to quiescence; late joiners at the end.
+/// Interleavings of concurrent bootstrap lookups are outside the whole-lookup model: connectivity verdict only.
+pub fn simultaneous_case(r: &mut Rng, n: usize) -> String {
+    let mut net = Net::new(r);
+    net.spawn(true, &[], &[]);
+    net.quiesce();
+    let mut count = 1usize;
+    while count < n {
+        let g = (2 + r.below(4) as usize).min(n - count);
+        let before = count;
+        for _ in 0..g {
+            let k = 1 + r.below(2) as usize;
+            let boots: Vec<usize> = (0..k).map(|_| r.below(before as u64) as usize).collect();
+            net.spawn(true, &boots, &[]);
+            count += 1;
+        }
+        net.quiesce();
+    }
+    let tabs: Vec<String> = (0..count)
+        .map(|i| {
+            let mut t = net.table(i);
+            for x in net.signed_table(i) {
+                if !t.contains(&x) {
+                    t.push(x);
+                }
+            }
+            t.sort();
+            nats(&t)
+        })
+        .collect();
+    format!("KBig [{}]", tabs.join("; "))
+}
+
 pub fn generate(seed: u64, scale: usize, which: &str) -> Cases {
     let mut r = Rng::new(seed ^ 0xC13);
     let mut o = Cases::new();
@@ -489,6 +523,11 @@ pub fn generate(seed: u64, scale: usize, which: &str) -> Cases {
             let mut rr = r.fork();
             let n = [48usize, 64, 96, 128][(i / 2) % 4];
             o.push("big-network-connectivity", big_case(&mut rr, n, i % 2 == 0));
+        }
+        for i in 0..(4 * scale) {
+            let mut rr = r.fork();
+            let n = [4usize, 9, 15, 20, 33, 50][i % 6];
+            o.push("simultaneous-joins-connectivity", simultaneous_case(&mut rr, n));
         }
         // public IP plans: random ids re-keyed after address confirmation, or addresses configured up front
         for i in 0..(6 * scale) {
